@@ -60,6 +60,7 @@ func rulesC07(c *Ctx) {
 	c.Floor("C07.POSTCOMMIT", 3)
 	// errors recorded while a child store persists the shared fields through the parent context
 	ruleParentChain(c, "C07.CHAIN")
+	ruleWrapperForwards(c, "C07.WRAPFORWARD")
 	// a failing pre-commit action aborts only if it was appended to the list the transaction runs
 	ruleCtxIdentity(c, "C07.CTXIDENTITY")
 	ruleErrHolderShared(c, "C07.CHAINHOLDER")
